@@ -114,39 +114,46 @@ def digitsVal : Nat → Str → Nat
 
 def lower (s : Str) : Str := s.map Char.toLower
 
+/-- an optional sign: is it `-`, and the rest -/
+def stripSign : Str → Bool × Str
+  | '-' :: r => (true, r)
+  | '+' :: r => (false, r)
+  | r => (false, r)
+
+/-- the digits after a decimal point, if there is one, and what follows -/
+def fracPart : Str → Str × Str
+  | '.' :: t => (t.takeWhile isDigit, t.dropWhile isDigit)
+  | t => ([], t)
+
 /-- exponent part after `e`/`E`: optional sign, one or more digits, nothing else -/
 def parseExp (s : Str) : Option Int :=
-  let (neg, ds) := match s with
-    | '-' :: r => (true, r)
-    | '+' :: r => (false, r)
-    | r => (false, r)
+  let neg := (stripSign s).1
+  let ds := (stripSign s).2
   if ds.isEmpty || !ds.all isDigit then none
   else some (if neg then -(digitsVal 0 ds : Int) else (digitsVal 0 ds : Int))
+
+/-- special values, case-insensitive, after the sign -/
+def parseSpecial (neg : Bool) (r : Str) : Option Num :=
+  if r.isEmpty then none
+  else if lower r == "nan".toList then some Num.nan
+  else if lower r == "inf".toList || lower r == "infinity".toList then some (Num.inf neg)
+  else none
 
 /-- Rust's decimal float grammar (`core::num::dec2flt`): `[+-] (digits [. digits] | . digits) [(e|E) [+-] digits]`,
     at least one mantissa digit; or, case-insensitively, `inf`, `infinity`, `nan` after the sign -/
 def parseF32 (s : Str) : Option Num :=
-  let (neg, r) := match s with
-    | '-' :: r => (true, r)
-    | '+' :: r => (false, r)
-    | r => (false, r)
+  let neg := (stripSign s).1
+  let r := (stripSign s).2
   let ip := r.takeWhile isDigit
-  let r1 := r.dropWhile isDigit
-  let (fp, r2) := match r1 with
-    | '.' :: t => (t.takeWhile isDigit, t.dropWhile isDigit)
-    | t => ([], t)
-  if ip.isEmpty && fp.isEmpty then
-    (if r.isEmpty then none
-     else if lower r == "nan".toList then some Num.nan
-     else if lower r == "inf".toList || lower r == "infinity".toList then some (Num.inf neg)
-     else none)
+  let fp := (fracPart (r.dropWhile isDigit)).1
+  let r2 := (fracPart (r.dropWhile isDigit)).2
+  if ip.isEmpty && fp.isEmpty then parseSpecial neg r
   else
-    let mant := digitsVal 0 (ip ++ fp)
     match r2 with
-    | [] => some (Num.fin neg mant (-(fp.length : Int)))
+    | [] => some (Num.fin neg (digitsVal 0 (ip ++ fp)) (-(fp.length : Int)))
     | c :: t =>
       if c = 'e' || c = 'E' then
-        (parseExp t).map (fun e => Num.fin neg mant (e - fp.length))
+        (parseExp t).map (fun e => Num.fin neg (digitsVal 0 (ip ++ fp)) (e - fp.length))
       else none
 
 inductive Val where
@@ -243,13 +250,26 @@ structure Cursor where
 
 def isIn (l : List String) (t : Str) : Bool := l.any (fun p => p.toList == t)
 
+/-- the four classes `build_blocks` tracks, by block type -/
+inductive Kind where
+  | floor | space | wall | child | other
+  deriving DecidableEq, Repr
+
+def kindOf (t : Str) : Kind :=
+  if isIn Gen.floorTypes t then .floor
+  else if isIn Gen.spaceTypes t then .space
+  else if isIn Gen.wallTypes t then .wall
+  else if isIn Gen.childTypes t then .child
+  else .other
+
 /-- parent of a block of type `t` named `name` given the cursor, and the cursor after it (`build_blocks`) -/
 def track (c : Cursor) (t name : Str) : Option Str × Cursor :=
-  if isIn Gen.floorTypes t then (none, { c with floor := name })
-  else if isIn Gen.spaceTypes t then (some c.floor, { c with space := name })
-  else if isIn Gen.wallTypes t then (some c.space, { c with wall := name })
-  else if isIn Gen.childTypes t then (some c.wall, c)
-  else (none, c)
+  match kindOf t with
+  | .floor => (none, { c with floor := name })
+  | .space => (some c.floor, { c with space := name })
+  | .wall => (some c.space, { c with wall := name })
+  | .child => (some c.wall, c)
+  | .other => (none, c)
 
 def skipped (b : Str) : Bool := Gen.skippedBlockPrefixes.any (fun p => startsWith p.toList b)
 
